@@ -21,10 +21,10 @@ RULE = ("EXHAUSTIVE over all (edition, variation) pairs of reporters-db that use
 ASSUMPTIONS = ["independent key of a case citation = (class, volume, page, guessed-edition-or-written reporter)",
                "variations whose guessed edition differs from (or is missing next to) the canonical one's are "
                "ambiguous in the database and only checked against the independent key"]
-FLOORS = {"quick": {"db_pairs": 1800, "db_pairs_unambiguous": 1500, "db_pairs_unambiguous_by_database": 1200, "roundtrips": 1200, "pools": 80,
+FLOORS = {"quick": {"db_pairs": 2100, "custom_template_pairs": 80, "db_pairs_unambiguous": 1500, "db_pairs_unambiguous_by_database": 1200, "roundtrips": 1200, "pools": 80,
                     "pool_pairs": 100000, "pool_equal_pairs": 300, "placeholder_objects": 50,
                     "cross_kind_pairs": 20000},
-          "thorough": {"db_pairs": 1800, "db_pairs_unambiguous": 1500, "db_pairs_unambiguous_by_database": 1200, "pools": 1500, "pool_pairs": 4000000}}
+          "thorough": {"db_pairs": 2100, "custom_template_pairs": 80, "db_pairs_unambiguous": 1500, "db_pairs_unambiguous_by_database": 1200, "pools": 1500, "pool_pairs": 4000000}}
 NPOOL = {"quick": 12, "thorough": 150}
 SHARDS = {"quick": 8, "thorough": 14}
 REPS = ["U.S.", "U. S.", "F.2d", "F. 2d", "S. Ct.", "S.Ct.", "Mass.", "F.3d", "Wash.", "A.2d", "A. 2d"]
@@ -60,19 +60,79 @@ def key(c):
     return (type(c).__name__, tuple(sorted((k, str(v)) for k, v in c.groups.items())))
 
 
+def custom_cores(en, v, rng):
+    """For an edition with custom templates only: a validated member of one of its patterns written with
+    the canonical reporter string, and the same text with the variation spelling substituted."""
+    import re as _re
+    from vmon.rxgen import sample
+    for e in gen.DB.cit_extractors:
+        if e.extra["short"] or en not in e.strings:
+            continue
+        if not any(x.short_name == en for x in e.extra["exact_editions"]):
+            continue
+        if not (e.regex.startswith(gen.PRE) and e.regex.endswith(gen.POST)):
+            continue
+        body = e.regex[len(gen.PRE):-len(gen.POST)]
+        rx = _re.compile(body, e.flags)
+        for _ in range(12):
+            try:
+                core = sample(body, rng, e.flags, maxrep=2)
+            except Exception:
+                break
+            m = rx.fullmatch(core)
+            if not m or "\n" in core or m.groupdict().get("reporter") != en:
+                continue
+            if not (m.groupdict().get("page") or "").isdigit():
+                continue      # placeholder pages are equal only to themselves (other clause of the property)
+            a, b = m.span("reporter")
+            return core, core[:a] + v + core[b:]
+    return None, None
+
+
+_bodies = {}
+
+
+def foreign_pattern_matches(core, en):
+    """Does a citation pattern that belongs to another edition match exactly the same characters? (Then
+    the written text is not an unambiguous spelling of `en`: 'Tenn. (Cooke)' is a variation of the reporter
+    Cooke, but '448 Tenn. (Cooke) 798' is also the Tenn. reporter's own nominative form.)"""
+    import re as _re
+    for e in gen.DB.cit_extractors:
+        if e.strings and not any(s in core for s in e.strings):
+            continue
+        if not (e.regex.startswith(gen.PRE) and e.regex.endswith(gen.POST)):
+            continue
+        if id(e) not in _bodies:
+            _bodies[id(e)] = _re.compile(e.regex[len(gen.PRE):-len(gen.POST)], e.flags)
+        if _bodies[id(e)].fullmatch(core):
+            eds = list(e.extra["exact_editions"]) + list(e.extra["variation_editions"])
+            if any(x.short_name != en for x in eds):
+                return True
+    return False
+
+
 def db_pairs(spec, rec):
     from eyecite.models import Resource
     rng = random.Random(spec["seed"])
-    for n, (en, v) in enumerate(gen.DB.pairs):
+    allpairs = [(en, v, False) for en, v in gen.DB.pairs] + [(en, v, True) for en, v in gen.DB.custom_pairs]
+    for n, (en, v, custom) in enumerate(allpairs):
         if n % spec["nshards"] != spec["i"]:
             continue
         vol, page = rng.randint(1, 999), rng.randint(1, 999)
-        canon = one_case(f"{vol} {en} {page}")
+        if custom:
+            core_c, core_v = custom_cores(en, v, rng)
+            if core_c is None:
+                rec.count("custom_pair_without_member")
+                continue
+            rec.count("custom_template_pairs")
+        else:
+            core_c, core_v = f"{vol} {en} {page}", f"{vol} {v} {page}"
+        canon = one_case(core_c)
         if canon is None:
             rec.count("canonical_not_single_citation")
             continue
         P, D = gen.word(rng), gen.word(rng)
-        ctx = (f"{rng.choice(['See ', 'In ', ''])}{P} v. {D}, {vol} {v} {page}, {page + rng.randint(1, 20)} "
+        ctx = (f"{rng.choice(['See ', 'In ', ''])}{P} v. {D}, {core_v}, {page + rng.randint(1, 20)} "
                f"({rng.randint(1800, 2020)}) ({gen.paren(rng)})")
         c = one_case(ctx)
         if c is None:
@@ -81,13 +141,16 @@ def db_pairs(spec, rec):
         rec.ev()
         rec.count("db_pairs")
         rec.nontrivial([en, v])
-        case = dict(canonical=en, variation=v, volume=vol, page=page, context=ctx)
+        case = dict(canonical=en, variation=v, canonical_text=core_c, context=ctx)
         same_guess = (c.edition_guess is not None and canon.edition_guess is not None
                       and c.edition_guess.short_name == canon.edition_guess.short_name)
         # independent of the library's own guess: the database relates this spelling to exactly one
         # edition, namely the canonical one -> the mapping is unambiguous whatever the year or context
         rel = gen.DB.related.get(v, set())
         db_unambiguous = len(rel) == 1 and next(iter(rel))[2] == en and v not in gen.DB.journals
+        if db_unambiguous and not same_guess and foreign_pattern_matches(core_v, en):
+            rec.count("second_pattern_tie")
+            db_unambiguous = False
         if db_unambiguous:
             rec.count("db_pairs_unambiguous_by_database")
             same_guess = True
@@ -224,7 +287,7 @@ def replay(w, rec):
     c = w["case"]
     if "context" in c:
         from eyecite.models import Resource
-        a, b = one_case(c["context"]), one_case(f"{c['volume']} {c['canonical']} {c['page']}")
+        a, b = one_case(c["context"]), one_case(c["canonical_text"])
         if a is None or b is None or not (a == b and hash(a) == hash(b) and Resource(a) == Resource(b)):
             rec.violation(w["monitor"], c)
     else:
